@@ -709,10 +709,15 @@ fn grid(thorough: bool) -> Grid {
     const M: i64 = i64::MAX;
     let (secs, neg_secs, nanos, dsecs): (Vec<i64>, Vec<i64>, Vec<i64>, Vec<u64>) = if !thorough {
         (
-            vec![0, 1, 2, 1_000_000_000, M - 2, M - 1, M],
+            // besides 0 / 10^9 / the type limits: the quotients and remainders a nanosecond fast path would
+            // compare with (i64::MAX / 10^9 = 9_223_372_036 rem 854_775_807, u64::MAX / 10^9 = 18_446_744_073
+            // rem 709_551_615) and the 32-bit limits, each with its neighbours
+            vec![0, 1, 2, 1_000_000_000, (1 << 31) - 1, 1 << 31, (1 << 32) - 1, 1 << 32, M / 1_000_000_000 - 1, M / 1_000_000_000, M / 1_000_000_000 + 1,
+                 18_446_744_072, 18_446_744_073, 18_446_744_074, M - 2, M - 1, M],
             vec![-1, -2, i64::MIN + 2, i64::MIN + 1, i64::MIN],
-            vec![0, 1, 2, 499_999_999, 999_999_998, 999_999_999],
-            vec![0, 1, 2, M as u64 - 1, M as u64, M as u64 + 1, u64::MAX - 1, u64::MAX],
+            vec![0, 1, 2, 499_999_999, 500_000_000, 709_551_614, 709_551_615, 709_551_616, 854_775_806, 854_775_807, 854_775_808, 999_999_998, 999_999_999],
+            vec![0, 1, 2, M as u64 / 1_000_000_000 - 1, M as u64 / 1_000_000_000, M as u64 / 1_000_000_000 + 1, 18_446_744_073, 18_446_744_074,
+                 M as u64 - 1, M as u64, M as u64 + 1, u64::MAX - 1, u64::MAX],
         )
     } else {
         // +-3 neighbourhoods of every constant a plausible implementation compares with
@@ -723,7 +728,8 @@ fn grid(thorough: bool) -> Grid {
         s.extend([M - 3, M - 2, M - 1, M]);
         let mut ng: Vec<i64> = vec![-1, -2, -3, -1_000_000_000, -(1 << 31), -(1 << 31) - 1, -(1 << 32)];
         ng.extend([i64::MIN + 3, i64::MIN + 2, i64::MIN + 1, i64::MIN]);
-        let n: Vec<i64> = vec![0, 1, 2, 3, 499_999_998, 499_999_999, 500_000_000, 500_000_001, 500_000_002, 999_999_996, 999_999_997, 999_999_998, 999_999_999];
+        let n: Vec<i64> = vec![0, 1, 2, 3, 499_999_998, 499_999_999, 500_000_000, 500_000_001, 500_000_002, 709_551_613, 709_551_614, 709_551_615, 709_551_616,
+            709_551_617, 854_775_805, 854_775_806, 854_775_807, 854_775_808, 854_775_809, 999_999_996, 999_999_997, 999_999_998, 999_999_999];
         let mut ds: Vec<u64> = vec![0, 1, 2, 3];
         for p in [1_000_000_000, 1u64 << 31, 1 << 32, M as u64 / 1_000_000_000, u64::MAX / 1_000_000_000, 1 << 62] {
             ds.extend(p - 3..=p + 3);
